@@ -220,7 +220,7 @@ def explore_config(m, cfg, bound):
     n = len(modes)
     seq = run_parproc(Chooser(), modes, w, parallel=False)
     want = Counter(seq)
-    if len(seq) != n or sorted(x[0] for x in seq) != list(range(n)):
+    if len(seq) != n or sorted(str(x[0]) for x in seq) != sorted(str(i) for i in range(n)):
         m.violation('sequential-not-one-per-payload', modes=modes, got=seq)
     stats: dict = {}
 
